@@ -507,6 +507,9 @@ func c05Catalogue(c *core.Ctx) []*c05Region {
 	add(c05PolylineRegion("polyline(14 vertices)", pv, pe))
 	add(c05PolylineRegion("polyline(tiny at corner)", []s2.Point{lattice.GeoCirclePoint(cc, 5e-8, 0), cc, lattice.GeoCirclePoint(cc, 5e-8, 2)}, pe))
 	add(c05PolylineRegion("polyline(one vertex)", []s2.Point{ctr["generic"]}, pe))
+	// a long east-west edge: its interior rises far poleward of both endpoints (to 73.9N), so the
+	// lat-lng box of the vertices is not a bound for the polyline
+	add(c05PolylineRegion("polyline(east-west edge at 60N)", []s2.Point{lattice.LL(60, -60), lattice.LL(60, 60)}, pe))
 	if big {
 		add(c05PolylineRegion("polyline(long edge)", []s2.Point{lattice.LL(-30, -60), lattice.LL(40, 50)}, pe))
 		add(c05PolylineRegion("polyline(through pole)", []s2.Point{lattice.LL(80, 10), lattice.LL(85, -170)}, pe))
